@@ -1,8 +1,12 @@
-(* ShapeDefs.v - the vocabulary in which harness/t_orch.py describes the shape of the shell code that the
-   orchestrator models transcribe (util.sh robsd(), step_exec_job, trap_exit, lock_acquire, lock_release).
-   gen/Gen_Orch.v (regenerated from util.sh on every run) is written in these terms; Orch/OrchTie.v compares
-   it with what the models implement. *)
+(* ShapeDefs.v - the small statement language in which harness/t_orch.py writes down what it reads in util.sh:
+   the body of the loop of robsd(), step_exec_job(), trap_exit(), the tests of lock_acquire() / lock_release()
+   and the way robsd_hook() starts the hook.  The translator maps every statement group of the source text to
+   ONE constructor, in the order in which it stands in the source (gen/Gen_Orch.v); it gives the statements no
+   meaning.  Orch/ShapeSem.v gives them their meaning on the states of the transition system (OrchDefs.v) and
+   Orch/OrchTie.v proves that the statement lists found in util.sh mean exactly main_step / job_step /
+   trap_exit / invoke_end - the functions every C04 / C11 theorem is about.  Definitions only. *)
 From Robsd Require Export Base.Bytes.
+Local Open Scope Z_scope.
 
 (* lock_acquire's refusal test *)
 Inductive acquire_test :=
@@ -13,41 +17,61 @@ Inductive release_test :=
 | RelWholeFileEqual               (* echo "$_builddir" | cmp -s - .running *)
 | RelFixedSubstring.              (* grep -qsF -- "$_builddir" .running : a known wrong variant (prefix-related names) *)
 
-(* what the loop does when the job queue is full *)
+(* what the loop does with $_jobs when the job queue is full *)
 Inductive queue_wait :=
 | QWKeepStillRunning              (* _jobs="$(echo "$_jobs" | xargs "$ROBSDWAIT" | xargs)" : robsd-wait prints the pids still running *)
-| QWDropOldest.                   (* a known wrong variant: forget the oldest pid whatever finished *)
+| QWDropOldest.                   (* a known wrong variant: robsd-wait's output dropped, the oldest pid forgotten *)
 
-(* where the barrier (robsd-wait -a on every remembered job) stands *)
-Inductive barrier_place :=
-| BarrierBeforeEverySyncStep      (* first thing in the non-parallel branch: also before end is recorded *)
-| BarrierAfterEndCheck.           (* a known wrong variant: end recorded while parallel steps still run *)
+(* ---- the body of `steps -o N | while read -r _step _name _parallel; do ... done` in robsd() ------------------ *)
+Inductive lstmt :=
+| LSkipTest                       (* if step_eval -n "$_name" "$_steps" 2>/dev/null && step_skip; then continue; fi *)
+| LQueueFull (q : queue_wait)     (* if [ "$(jobs_count "$_jobs")" -eq "$_ncpu" ]; then <q>; fi *)
+| LForkJob                        (* step_exec_job ... -i "$_step" -n "$_name" &   _jobs="${_jobs}${_jobs:+ }${!}" *)
+| LBarrier                        (* if [ -n "$_jobs" ]; then echo "$_jobs" | xargs "$ROBSDWAIT" -a; _jobs=""; fi *)
+| LEnd                            (* if [ "$_name" = "end" ]; then ... step_write -t -s .. -n end -e 0 ...; return 0; fi *)
+| LSyncJob                        (* step_exec_job ... -i "$_step" -n "$_name"     (foreground; set -e) *)
+| LReboot                         (* if [ "$_name" = "reboot" ] && [ "$(config_value reboot)" -eq 1 ]; then return 0; fi *)
+| LLockAlive.                     (* if ! lock_alive "$ROBSDDIR" "$_builddir"; then [ -z "$_jobs" ] || ... -a; return 1; fi *)
 
-Record loop_shape := mkloop {
-  ls_skip_first : bool;           (* step_eval -n name && step_skip => continue, before anything else *)
-  ls_queue_full_is_eq_ncpu : bool;(* [ "$(jobs_count "$_jobs")" -eq "$_ncpu" ] *)
-  ls_queue : queue_wait;
-  ls_parallel_in_background : bool;   (* step_exec_job ... & ; _jobs="$_jobs $!" *)
-  ls_barrier : barrier_place;
-  ls_barrier_clears_jobs : bool;  (* _jobs="" after robsd-wait -a *)
-  ls_end_recorded_then_return : bool; (* name = end: step_write -e 0; return 0 (hook left to the exit trap) *)
-  ls_sync_in_foreground : bool;   (* step_exec_job ... without &, under set -e *)
+(* the loop body: statements before `if [ -n "$_parallel" ]`, its two branches, statements after its `fi` *)
+Record loop_body := mkbody {
+  lb_head : list lstmt;
+  lb_par : list lstmt;
+  lb_sync : list lstmt;
+  lb_tail : list lstmt;
 }.
 
-(* step_exec_job: in-flight record (-e -1), the command, completion record with the command's status, the
-   hook with name and status, failure iff the status is non-zero (canvas mode) *)
-Record job_shape := mkjob {
-  js_first_record_exit : Z;
-  js_exit_from_command : bool;
-  js_second_record_then_hook : bool;
-  js_returns_1_iff_nonzero : bool;
-}.
+(* ---- step_exec_job() after its argument loop ---------------------------------------------------------------- *)
+Inductive jstmt :=
+| JLogId                          (* _log="$(log_id -b "$_builddir" -n "$_name" -s "$_id")" *)
+| JT0                             (* _t0="$(date '+%s')" *)
+| JWriteInflight (e d : Z)        (* step_write -t -l "$_log" -s "$_id" -n "$_name" -e <e> -d <d> "$_steps" *)
+| JExec                           (* step_exec -l "$_builddir/$_log" -s "$_name" || _exit="$?"     (_exit starts as 0) *)
+| JT1                             (* _t1="$(date '+%s')" *)
+| JDuration                       (* _d1="$((_t1 - _t0))" *)
+| JDelta                          (* _d0="$(duration_prev "$_name" || :)"; _delta = _d1 - _d0 or 0 *)
+| JWriteDone                      (* step_write -l "$_log" -s "$_id" -n "$_name" -e "$_exit" -d "$_d1" -a "$_delta" "$_steps" *)
+| JHook                           (* robsd_hook -v "step-exit=$_exit" -v "step-name=$_name" *)
+| JReturnIfNonzero.               (* case $_MODE: robsd-regress: regress_step_after .. || return 1; any other mode: [ "$_exit" -eq 0 ] || return 1 *)
 
-(* trap_exit *)
-Record exit_shape := mkexit {
-  xs_report_iff_steps_and_err_or_end : bool;   (* has_steps && { [ $_err -ne 0 ] || step_eval -n end; } *)
-  xs_mail_iff_report_and_detach : bool;        (* report -b ... && [ "$DETACH" -ne 0 ] => sendmail *)
-  xs_endhook_iff_end_recorded : bool;          (* step_eval -n end => robsd_hook step-exit=0 step-name=end *)
-  xs_release_then_remove_empty : bool;         (* lock_release ... || :; has_steps || rm -r builddir *)
-  xs_returns_err : bool;
-}.
+(* ---- trap_exit() after its argument loop --------------------------------------------------------------------- *)
+Inductive xstmt :=
+| XKillStat                       (* [ -z "$_statpid" ] || kill "$_statpid" || : *)
+| XReturnIfNoBuilddir             (* [ -n "$_builddir" ] || return "$_err" *)
+| XReportMail                     (* if has_steps && { [ $_err -ne 0 ] || step_eval -n end; }; then
+                                       if report -b .. && [ "$DETACH" -ne 0 ]; then sendmail <receiver> <report; fi; fi *)
+| XEndHook                        (* if step_eval -n end "$_steps" 2>/dev/null; then robsd_hook step-exit=0 step-name=end; fi *)
+| XLockRelease                    (* lock_release "$_robsddir" "$_builddir" || : *)
+| XRemoveIfEmpty                  (* has_steps "$_steps" || rm -r "$_builddir" *)
+| XReturnErr.                     (* return "$_err"     (_err="$?" is the first statement) *)
+
+(* ---- robsd_hook(): what the hook process gets as standard input --------------------------------------------- *)
+Inductive hook_stdin :=
+| HookStdinInherited              (* "$ROBSDHOOK" ... "$@" || :            - inside the loop: the `steps |` pipe *)
+| HookStdinNull.                  (* "$ROBSDHOOK" ... "$@" </dev/null || : *)
+
+(* ---- the entry scripts (canvas, robsd, robsd-cross, robsd-ports, robsd-regress): what a step_next that FAILS leads to --- *)
+Inductive resume_failure :=
+| RFTrapOnBuilddir                (* trap ... EXIT first; _step="$(step_next ...)" fails under set -e: trap_exit runs on $BUILDDIR *)
+| RFTrapLater                     (* step_next is asked before the trap is installed: the script just ends (a candidate patch, never in /repo) *)
+| RFBuilddirCleared.              (* _step="$(step_next ...)" || { BUILDDIR=""; exit 1; } : trap_exit returns at once on the empty $BUILDDIR *)
